@@ -2,6 +2,7 @@
   C09 — a connection that saw a failure is never reused; fresh ones are vetted.
 -/
 import ZvtVerif.Proofs.ClientLemmas
+import ZvtVerif.Proofs.ClientFrame
 namespace Zvt.C09
 open Zvt
 
@@ -101,6 +102,77 @@ theorem handshake_uses_new_slot (cfg : Cfg) (w : World) : (connect cfg w).1.logs
 /-- inside an exchange the client never switches connections. -/
 theorem same_connection_within_exchange (d : SeqDesc) (dl : Nat) (w : World) (c : ConnSt) (st : SeqSt) :
     (seqNext d dl w c st).2.2.1.id = c.id := (seqNext_conn d dl w c st).2
+
+/-! ### traffic: an abandoned connection never sees another byte — over whole call histories
+
+`World.logs` is the per-connection log of the simulated terminal (`open@t`, `rx:HEX` for every packet the client
+sends, `tclose@t` / `close@t`); slot `j` is connection `j`. `Quiet w w'` (Proofs/ClientFrame.lean): no slot
+disappears, the live connection of `w'` is the live connection of `w` or one opened since, and the log of every slot
+of `w` that is not its live connection is unchanged in `w'`. It holds for one `stream.next()`, an attempt, a
+handshake, the retry loop, every operation of `Feig` and — by transitivity — every history of calls. -/
+
+/-- **Nothing is ever sent (or received, or closed) on a connection that is not the live one** — for ANY history
+of public calls (configure, read_card, begin, commit, cancel), any terminal script, faults, pauses and time-outs:
+the log of every connection that is not live at the start is, at the end, exactly what it was. -/
+theorem abandoned_connection_stays_silent (cfg : Cfg) (cl : Client) (w : World) (calls : List ClientCall)
+    (j : Nat) (hj : j < w.logs.length) (hdead : ∀ c, w.conn = some c → c.id ≠ j) :
+    (runClientCalls cfg (cl, w) calls).2.logs[j]? = w.logs[j]? :=
+  (quiet_calls cfg calls (cl, w)).frozen j hj hdead
+
+/-- … and the connection that is live after any history is the one that was live before it or a connection opened
+during it — never one of the abandoned ones. -/
+theorem live_connection_after_history (cfg : Cfg) (cl : Client) (w : World) (calls : List ClientCall) (c' : ConnSt)
+    (h : (runClientCalls cfg (cl, w) calls).2.conn = some c') :
+    (∃ c, w.conn = some c ∧ c'.id = c.id) ∨ w.logs.length ≤ c'.id :=
+  (quiet_calls cfg calls (cl, w)).fresh.2 c' h
+
+/-- **After a failed attempt its connection is dead for good**: whatever the client is asked to do afterwards, not
+a single further packet goes out on it. (Failed attempt = error item or time-out, caller polls again.) -/
+theorem failed_connection_never_used {σ ρ : Type} (d : SeqDesc) (timeout : Nat) (step : σ → Item → Step σ ρ)
+    (hpoll : PollsAgain step) (fuel : Nat) (w : World) (c : ConnSt) (st : SeqSt) (s : σ)
+    (hc : c.id < w.logs.length)
+    (hfail : (runItems d timeout step fuel w c st s).2.2 = true)
+    (cfg : Cfg) (cl : Client) (calls : List ClientCall) :
+    (runClientCalls cfg (cl, (runItems d timeout step fuel w c st s).2.1) calls).2.logs[c.id]? =
+      (runItems d timeout step fuel w c st s).2.1.logs[c.id]? := by
+  apply abandoned_connection_stays_silent
+  · rw [runItems_nlogs]; exact hc
+  · intro c' h
+    rw [failed_attempt_drops_connection d timeout step hpoll fuel w c st s hfail] at h
+    cases h
+
+/-- **A connection that failed its vetting is never used for commands**: if the handshake does not succeed
+(refused, silent, NACK, undecodable reply, aborted identity request, different serial number) the slot it opened
+stays exactly as the handshake left it through every later call — the only packets it ever saw are the
+handshake's own. -/
+theorem rejected_connection_never_used (cfg : Cfg) (w : World) (hnone : w.conn = none)
+    (hrej : (connect cfg w).2 = false) (cl : Client) (calls : List ClientCall) :
+    (runClientCalls cfg (cl, (connect cfg w).1) calls).2.logs[w.logs.length]? = (connect cfg w).1.logs[w.logs.length]? := by
+  apply abandoned_connection_stays_silent
+  · rw [connect_nlogs]; exact Nat.lt_succ_self _
+  · intro c' h
+    rcases (connect_outcome cfg w).2 hrej with h1 | h1
+    · rw [h1] at h; cases h
+    · rw [h1, hnone] at h; cases h
+
+/-- the theorems on a concrete run (kernel-evaluated): the terminal drops connection 0 in the middle of the
+reservation exchange; the retry registers and identifies on connection 1 and repeats the command there; a later
+`cancel` runs on connection 1; connection 0 still shows exactly the seven entries it had when it failed. -/
+example :
+    let cfg : Cfg := { maxTx := 1, amount := 2500, currency := 978, password := 123456, readCardTimeout := 15,
+                       serial := [65, 66], terminalId := [49] }
+    let w : World := { serial := [0x41, 0x42, 0, 0, 0, 0, 0, 0], tid := [0x31, 0, 0, 0, 0, 0, 0, 0],
+                       faults := [((0, 5), .close)] }
+    let s1 := runClientCalls cfg ({}, w) [.begin [97]]
+    let s2 := runClientCalls cfg ({}, w) [.begin [97], .cancel [97]]
+    s1.2.logs.map List.length = [7, 8] ∧ s1.2.conn.map (·.id) = some 1 ∧
+    s2.2.logs.map List.length = [7, 14] ∧ s2.2.logs[0]? = s1.2.logs[0]? ∧
+    (s1.2.logs[1]?.map (·.take 4)) = some ["open@2", "rx:060006123456de0978", "rx:800000", "rx:0fa1020001"] := by
+  decide +kernel
+
+/-- the handshake itself touches no older connection. -/
+theorem handshake_touches_no_old_connection (cfg : Cfg) (w : World) (j : Nat) (hj : j < w.logs.length) :
+    (connect cfg w).1.logs[j]? = w.logs[j]? := connect_old_slots cfg w j hj
 
 /-- non-vacuity / vetting on a concrete run: a terminal reporting a different serial is registered with,
 asked for its identity — and then dropped without a single command. -/
